@@ -732,7 +732,10 @@ func (rn *runner) session(c *ccase, err error, plan string, invoke, init reflect
 	func() {
 		defer func() {
 			if p := recover(); p != nil {
-				res = append(res, "P")
+				// nothing is specified after a panic: the rest of the session counts as panicked too
+				for len(res) < len(c.steps) {
+					res = append(res, "P")
+				}
 			}
 		}()
 		for _, st := range c.steps {
